@@ -175,7 +175,7 @@ def validate(ctx, trace_path, tag, prefixes):
     if r.distinct != len(events):
         raise vlib.Infra("trace %s: %d lines but %d states validated (unconsumed or malformed lines)" % (tag, len(events), r.distinct))
     names = all_trace_predicates()
-    drift = {"D_Units", "D_NoError"} | ({"D_Drift", "D_Model"} if "C14_" in prefixes else set())
+    drift = {"D_Units", "D_NoError", "D_Decision"} | ({"D_Drift", "D_Model"} if "C14_" in prefixes else set())
     first = {}   # (scenario start line, property prefix) -> (verdict, first failing predicate of that prefix)
     tainted = set()
     for v in sorted(verdicts, key=lambda x: (x["l0"], x["l"])):
